@@ -82,7 +82,12 @@ func pickRoutes(rng *verifsim.RNG, maxN int, allowDefault bool) []RouteW {
 		if routePool[i].Prefix == "::/0" && !allowDefault {
 			continue
 		}
-		out = append(out, routePool[i])
+		r := routePool[i]
+		if rng.Bool(0.15) {
+			// not every route of a loopback interface is a plain unicast one
+			r.Type = []int{unix.RTN_LOCAL, unix.RTN_ANYCAST, unix.RTN_MULTICAST, unix.RTN_UNREACHABLE, unix.RTN_BLACKHOLE}[rng.Intn(5)]
+		}
+		out = append(out, r)
 		n--
 	}
 	return out
